@@ -147,9 +147,9 @@ func c08Programs() []c08Program {
 		out = append(out, c08Program{name: fmt.Sprintf("fixture%d", i), src: f})
 	}
 	var files []string
-	for _, pat := range []string{"/repo/testsuite/lang/*.mpcl", "/repo/testsuite/bytes/*.mpcl", "/repo/testsuite/math/bits/*.mpcl", "/repo/testsuite/strconv/*.mpcl",
-		"/repo/testsuite/crypto/sha1.mpcl", "/repo/testsuite/crypto/sha256_block.mpcl", "/repo/testsuite/crypto/hmac_sha1.mpcl", "/repo/testsuite/crypto/hmac_sha256.mpcl",
-		"/repo/apps/garbled/examples/millionaire.mpcl", "/repo/apps/garbled/examples/hamming.mpcl", "/repo/apps/garbled/examples/credit.mpcl", "/repo/apps/garbled/examples/rps.mpcl"} {
+	for _, pat := range []string{vrt.Repo+"/testsuite/lang/*.mpcl", vrt.Repo+"/testsuite/bytes/*.mpcl", vrt.Repo+"/testsuite/math/bits/*.mpcl", vrt.Repo+"/testsuite/strconv/*.mpcl",
+		vrt.Repo+"/testsuite/crypto/sha1.mpcl", vrt.Repo+"/testsuite/crypto/sha256_block.mpcl", vrt.Repo+"/testsuite/crypto/hmac_sha1.mpcl", vrt.Repo+"/testsuite/crypto/hmac_sha256.mpcl",
+		vrt.Repo+"/apps/garbled/examples/millionaire.mpcl", vrt.Repo+"/apps/garbled/examples/hamming.mpcl", vrt.Repo+"/apps/garbled/examples/credit.mpcl", vrt.Repo+"/apps/garbled/examples/rps.mpcl"} {
 		m, _ := filepath.Glob(pat)
 		files = append(files, m...)
 	}
@@ -158,7 +158,7 @@ func c08Programs() []c08Program {
 		if err != nil {
 			continue
 		}
-		p := c08Program{name: strings.TrimPrefix(f, "/repo/"), src: string(b)}
+		p := c08Program{name: strings.TrimPrefix(f, vrt.Repo+"/"), src: string(b)}
 		// input sizes of the first @Test vector (unsized arguments)
 		for _, ln := range strings.Split(p.src, "\n") {
 			ln = strings.TrimSpace(ln)
